@@ -2160,6 +2160,10 @@ isal_inflate_stateless(struct inflate_state *state)
         state->total_out = 0;
         state->hist_bits = 0;
         state->tmp_in_size = 0;
+        state->write_overflow_lits = 0;
+        state->write_overflow_len = 0;
+        state->copy_overflow_length = 0;
+        state->copy_overflow_distance = 0;
 
         if (state->crc_flag == IGZIP_GZIP) {
                 struct isal_gzip_header gz_hdr;
